@@ -23,7 +23,7 @@ FA_LONG = 40      # a force_after beyond the default processing_timeout (30)
 REACT = 3         # a stubborn handler's reaction time
 TAIL = 200        # virtual seconds after the conversation
 LTS_EVENTS = {'Q', 'W', 'B', 'C', 'X', 'D', 'NQ', 'NW', 'BT', 'F', 'O', 'OB', 'ON', 'R', 'L', 'LE', 'AC', 'ACC',
-              'ACT', 'AB', 'A', 'Z', 'XC', 'OM'}
+              'ACT', 'AB', 'A', 'Z', 'XC', 'OM', 'WC'}
 
 RULE = ('case = (session kind RPCSession|MessageSession, transport RSTransport|USTransport, '
         'graceful close completes or stalls, event list); crash-point cases = conversation of '
@@ -185,7 +185,7 @@ def random_crash_cases(r, n, maxlen=6):
 
 
 # ---------------------------------------------------------------------------- lifecycle (model) cases
-LTS_ALPHA = ['Q', 'W', 'B3', 'B20', 'B40', 'C7', 'C2', 'C40', 'D', 'F', 'Z', 'O', 'R', 'L', 'AC7', 'AC2', 'ACC',
+LTS_ALPHA = ['Q', 'W', 'B3', 'B20', 'B40', 'C7', 'C2', 'C40', 'WC30', 'D', 'F', 'Z', 'O', 'R', 'L', 'AC7', 'AC2', 'ACC',
              'XC', 'AB', 'A1', 'A2', 'A5', 'A30']
 LTS_ALPHA_QUICK = ['W', 'B3', 'B20', 'C7', 'C40', 'Z', 'O', 'R', 'L', 'AC7', 'AC2', 'XC', 'AB', 'A5', 'A30']
 
@@ -200,6 +200,9 @@ def expand_lts(letters, skind, tail=True):
         elif x[0] == 'B':
             h += 1
             evs.append(('B', h, int(x[1:])))
+        elif x[:2] == 'WC':
+            h += 1
+            evs.append(('WC', h, int(x[2:])))
         elif x[0] == 'C':
             h += 1
             evs.append(('C', h, int(x[1:])))
@@ -245,8 +248,10 @@ def random_lts_case(r):
         x = r.random()
         if x < 0.25:
             h += 1
-            kind = r.choice(['Q', 'W', 'W', 'B', 'B', 'C', 'C', 'D' if skind == 'rpc' else 'W'])
-            if kind == 'B':
+            kind = r.choice(['Q', 'W', 'W', 'B', 'B', 'C', 'C', 'WC', 'D' if skind == 'rpc' else 'W'])
+            if kind == 'WC':
+                evs.append(('WC', h, r.choice([0, 2, 7, 23, 30, 31, 40])))
+            elif kind == 'B':
                 evs.append(('B', h, r.choice([0, 1, 3, 3, 8, 20, 40])))
             elif kind == 'C':
                 evs.append(('C', h, r.choice([0, 2, 7, 23, 30, 31, 40])))
@@ -591,6 +596,19 @@ def mass_cases(deep):
                     out.append(({'skind': 'rpc', 'transport': 'rs' if n % 2 == 0 else 'us',
                                  'stalled': stalled}, ev2))
                     n += 1
+    # the 51st caller is a batch; more requests than the incoming limiter (20) admits at once
+    for fault in ('drop', 'close_stalled', 'abort', 'handler_close_stalled', 'crash'):
+        stalled, fev = expand([], fault, 0)
+        fev = [(e[0],) + tuple(x + 100 if e[0] in ('C', 'W', 'Z', 'WC') and i == 0 else x
+                               for i, x in enumerate(e[1:])) for e in fev]
+        for skind in ('rpc', 'msg'):
+            heads = [[('WM', 1, 25)], [('WM', 1, 25), ('A', 3), ('F', 2)]]
+            if skind == 'rpc':
+                heads += [[('OM', 1, 50), ('OB', 51)], [('OM', 1, 50), ('OB', 51), ('O', 52)]]
+            for head in heads:
+                out.append(({'skind': skind, 'transport': 'rs' if n % 2 == 0 else 'us', 'stalled': stalled},
+                            head + fev))
+                n += 1
     return out
 
 
